@@ -417,6 +417,8 @@ fn first_sight_numbering<T: std::hash::Hash + Eq + Copy>(xs: &[T]) -> Vec<usize>
 struct Canon {
     /// wrapper occurrences in traversal order with their pointer-equality class
     occ: Vec<Occ>,
+    /// payload of an unwrapped root
+    root: String,
     /// payload per class (first-sight order)
     payload: Vec<String>,
     /// strong count per class at first sight
@@ -464,10 +466,10 @@ fn compare(before: &Canon, after: &Canon, text: &str) -> Result<(), String> {
         };
         return Err(format!("{what}: {} (emitted {:?})", diff_occ(&before.occ, &after.occ), text));
     }
-    if before.payload != after.payload {
+    if before.payload != after.payload || before.root != after.root {
         return Err(format!(
-            "payloads differ: before {:?}, after {:?} (emitted {:?})",
-            before.payload, after.payload, text
+            "payloads differ: before {:?} {:?}, after {:?} {:?} (emitted {:?})",
+            before.root, before.payload, after.root, after.payload, text
         ));
     }
     if before.walks != after.walks {
@@ -684,7 +686,7 @@ macro_rules! dag_family {
                 if let Some(a) = wrapped {
                     strong(a, &mut st);
                 } else if let Some(n) = root {
-                    st.c.payload.push(format!(
+                    st.c.root = (format!(
                         "root n{} named={:?} wmap={:?}",
                         n.id,
                         n.named.keys().collect::<Vec<_>>(),
@@ -1038,8 +1040,7 @@ macro_rules! rec_family {
                     strong(a.clone(), &mut st);
                 } else if let Some(n) = root {
                     let s = snap_node(n, "root ");
-                    st.c.payload.push(s.payload.clone());
-                    st.c.counts.push(0);
+                    st.c.root = s.payload.clone();
                     walk_snap(s, &mut st);
                 }
                 counts(root, wrapped, &mut st);
